@@ -42,6 +42,9 @@ CaseDump == PrintT(<<"CASE", ToJson([m |-> Sorted(M)])>>)
 
 \* run families (a .cfg cannot hold tuples)
 Run(c0, g0, n, step) == {<<c0 + i, g0 + i * step>> : i \in 0..(n - 1)}
+\* four adjacent code points with every assignment of four adjacent glyph ids (ordered, permuted, repeated): the
+\* decision between one idDelta segment, several segments and the glyph id array
+PermRuns == {{<<40 + i, f[i]>> : i \in 0..3} : f \in [0..3 -> 5..8]} \cup {{<<97 + i, f[i]>> : i \in 0..2} : f \in [0..2 -> {10, 12, 20}]}
 RunsQ == { Run(32, 3, 6, 1), Run(32, 40, 6, -1), Run(65, 7, 3, 0) \cup {<<70, 7>>},
            Run(1, 32769, 3, 1), Run(0, 32767, 4, 1), Run(32766, 1, 4, 1), Run(65530, 65530, 5, 0),
            Run(65531, 10, 4, 1) \cup Run(65536, 20, 2, 1), Run(1, 3, 2, -1) \cup Run(3, 4, 5, 1) \cup Run(8, 2, 2, 7),
@@ -49,4 +52,5 @@ RunsQ == { Run(32, 3, 6, 1), Run(32, 40, 6, -1), Run(65, 7, 3, 0) \cup {<<70, 7>
            \* both sides of the surrogate gap (U+D7FF / U+E000), glyph ids continuing or not
            Run(55294, 10, 2, 1) \cup Run(57344, 12, 2, 1), Run(55295, 3, 1, 1) \cup Run(57344, 4, 1, 1),
            Run(55295, 9, 1, 1) \cup Run(57344, 2, 3, 1), Run(65533, 7, 2, 1) \cup Run(65536, 9, 2, 1) }
+         \cup PermRuns
 =============================================================================
